@@ -14,8 +14,8 @@ def run():
     recs, lines = trace_leg(v, acc, "c01", [PID])
     plants = [r for r in lines if r.get("ev") == "plant"]
     acc.nontrivial = len({(r["key"], r["thr"]) for r in plants})
-    acc.extra["plants"] = len(plants); acc.extra["thresholds"] = sorted({r["thr"] for r in plants})
+    acc.extra["plants"] = len(plants); acc.extra["plants_sharing_lines"] = sum(1 for r in plants if r.get("shared")); acc.extra["thresholds"] = sorted({r["thr"] for r in plants})
     rc = v.finish()
-    vlib.write_evidence(PID, acc.coverage("copies of corpus documents (all 431 at 0.8, seeded samples at the other thresholds, plus user-added documents of exactly q, q+1, 2q words) planted 1-3 at a time between blocks of out-of-vocabulary lines; plant positions from the white-box tokenisation of the pieces; distinct = (document, threshold) pairs"),
+    vlib.write_evidence(PID, acc.coverage("copies of corpus documents (all 431 at 0.8, seeded samples at the other thresholds, plus user-added documents of exactly q, q+1, 2q words) planted 1-3 at a time between blocks of out-of-vocabulary lines, and again with the copies sharing their boundary lines (junk words, no line break, between them); plant positions from the white-box tokenisation of the pieces; distinct = (document, threshold) pairs"),
         ["out-of-vocabulary words are checked white-box against the classifier's dictionary", "documents shorter than q words are outside the statement's domain", "CRC-32 collisions between q-grams are not modelled"], time.time() - t0, len(v.violations))
     return rc
